@@ -27,7 +27,7 @@ Extraction "../ocaml/model.ml"
   Constants.tj_merge_variant TileJson.merge TileJson.update_from_pyramid TileJson.tj_default
   Constants.geo_guard_variant Geo.axis_box VPLArgs.bbox_builds VPLArgs.zoom_builds
   Constants.csv_tail_variant Constants.vt_stream_variant Csv.read_csv Chunk.stream
-  Constants.pm_arith_variant Constants.pm_depth_variant TileId.coord_to_tile_id TileId.tile_id_to_coord PMDir.serialize PMDir.serialize_with PMDir.deserialize PMDir.find_tile PMDir.pm_lookup PMDir.cov_ids PMWrite.build_roots_leaves PMWrite.as_directory PMWrite.read_leaf OverlayComp.declared OverlayComp.overlay_answer VTBytes.bdef_from_blob VTBytes.bdef_as_blob VTBytes.bdef_new VTBytes.tidx_from_blob VTBytes.tidx_as_blob VTBytes.tidx_add_offset VTBytes.hdr_from_blob VTBytes.hdr_to_blob PMHeader.pmh_deserialize PMHeader.pmh_serialize VectorLayers.vls_merge
+  Constants.pm_arith_variant Constants.pm_depth_variant TileId.coord_to_tile_id TileId.tile_id_to_coord PMDir.serialize PMDir.serialize_with PMDir.deserialize PMDir.find_tile PMDir.pm_lookup PMDir.cov_ids PMWrite.build_roots_leaves PMWrite.as_directory PMWrite.read_leaf OverlayComp.declared OverlayComp.overlay_answer VTBytes.bdef_from_blob VTBytes.bdef_as_blob VTBytes.bdef_new VTBytes.tidx_from_blob VTBytes.tidx_as_blob VTBytes.tidx_add_offset VTBytes.tidx_add_offset_v Constants.tidx_offset_variant VTBytes.hdr_from_blob VTBytes.hdr_to_blob PMHeader.pmh_deserialize PMHeader.pmh_serialize VectorLayers.vls_merge
   VTFormat.vt_write VTFormat.vt_lookup N.sub VTBlock.write_block VTBlock.read_slot
   Pyramid.py_new_empty Pyramid.py_new_full Pyramid.py_intersect Pyramid.py_set_level Pyramid.py_include_coord Pyramid.py_include_pyramid
   Pyramid.py_contains Pyramid.py_overlaps Pyramid.py_set_zoom_min Pyramid.py_set_zoom_max Pyramid.py_zoom_min Pyramid.py_zoom_max Pyramid.py_count Pyramid.py_is_empty Pyramid.py_add_border
